@@ -8,6 +8,7 @@ CONSTANTS
   Coords = {"A", "X"}
   OpKinds = {"CreateStream", "DeleteStream", "Pause", "Resume", "SetReadonly", "ShrinkISR", "ExpandISR", "ChangeLeader", "PublishActivity"}
   Variants = {"plain", "custom"}
+  Extras = {}
   MaxOps = 3
   MaxSnaps = 1
   MaxRestarts = 1
